@@ -2,6 +2,7 @@ import Dmn.Lemmas.LexerName
 import Dmn.Lemmas.LexerNormalise
 import Dmn.Lemmas.LexerRoundtrip
 import Dmn.Lemmas.LexerOperator
+import Dmn.Lemmas.LexerNextChar
 
 /-!
 # C10 — names with spaces and symbols resolve to their bound value (longest match)
@@ -14,12 +15,13 @@ flags.
 namespace Dmn.Lexer
 
 /-- `longest_match`: when the part collector has left `st` (parts, consumed positions), the
-`item` and `till_in` tweaks do not apply, and `k` is the greatest number of leading parts whose
+`till_in` tweak does not apply, and `k` is the greatest number of leading parts whose
 `Name::new` text (the text under which a name is stored in a scope) is a key of the scope, then `consume_name` returns exactly the name made of
-these `k` parts and rewinds the cursor to just after the position recorded for part `k`. -/
+these `k` parts and rewinds the cursor to just after the position recorded for part `k` — also
+when the first word is `item` (the `item` tweak comes after the scope, lexer.rs:680; finding L4,
+repaired). -/
 theorem longest_match (l : Lx) (st : NameSt)
     (hcol : collectParts l.input l.pos = .ok st)
-    (hitem : st.parts.head? ≠ some kwItem)
     (htill : l.tillIn = false ∨ (positionOfIn st.parts).filter (fun i => 0 < i) = none)
     (k : Nat) (hk1 : 1 ≤ k) (hkn : k ≤ st.parts.length)
     (hkey : isKeyAt l.keys st.parts k = true)
@@ -33,9 +35,6 @@ theorem longest_match (l : Lx) (st : NameSt)
   unfold consumeName
   rw [hcol]
   unfold finishName
-  have h1 : (st.parts.head? == some kwItem) = false := by
-    simpa using hitem
-  simp only [h1, Bool.false_eq_true, if_false]
   have h2 : (if l.tillIn = true then (positionOfIn st.parts).filter (fun i => 0 < i) else none) = none := by
     cases htill with
     | inl h => simp [h]
@@ -65,12 +64,11 @@ theorem unbound_whole_name (l : Lx) (st : NameSt)
   unfold finishName
   have h1 : (st.parts.head? == some kwItem) = false := by
     simpa using hitem
-  simp only [h1, Bool.false_eq_true, if_false]
   have h2 : (if l.tillIn = true then (positionOfIn st.parts).filter (fun i => 0 < i) else none) = none := by
     cases htill with
     | inl h => simp [h]
     | inr h => simp [h]
-  simp only [h2, hloop]
+  simp only [h2, hloop, h1, Bool.false_eq_true, if_false]
   split
   · exact ⟨_, _, rfl, rfl, Or.inr (Or.inr rfl)⟩
   · split
@@ -87,6 +85,105 @@ def exLx2 : Lx :=
     between := false, typeName := false, tillIn := false, keys := [] }
 example : consumeName exLx2 = .ok (⟨.name, .name [120, 45, 121]⟩, { exLx2 with pos := 5 }) := by decide
 
+
+/-- `item_when_unbound`: the word `item` is split off as the filter variable only when no bound
+name begins here — the `item` tweak (lexer.rs:680) comes after the `till_in` tweak and after the
+longest-prefix loop (finding L4, repaired). -/
+theorem item_when_unbound (l : Lx) (st : NameSt)
+    (hcol : collectParts l.input l.pos = .ok st)
+    (hitem : st.parts.head? = some kwItem)
+    (htill : l.tillIn = false ∨ (positionOfIn st.parts).filter (fun i => 0 < i) = none)
+    (hnone : ∀ j, 1 ≤ j → j ≤ st.parts.length → isKeyAt l.keys st.parts j = false) :
+    ∃ p, st.positions[0]? = some p ∧
+      consumeName l = .ok (⟨.name, .name kwItem⟩, { l with pos := p + 1 }) := by
+  have hl := collectParts_len hcol
+  have hne : st.parts ≠ [] := by intro he; simp [he] at hitem
+  have hlen : 0 < st.positions.length := by rw [hl]; exact List.length_pos_iff.mpr hne
+  refine ⟨st.positions[0], List.getElem?_eq_getElem hlen, ?_⟩
+  have hloop := prefixLoop_none l.keys st.parts st.positions st.parts.length (Nat.le_refl _) hnone
+  unfold consumeName
+  rw [hcol]
+  unfold finishName
+  have h1 : (st.parts.head? == some kwItem) = true := by simp [hitem]
+  have h2 : (if l.tillIn = true then (positionOfIn st.parts).filter (fun i => 0 < i) else none) = none := by
+    cases htill with
+    | inl h => simp [h]
+    | inr h => simp [h]
+  simp only [h2, hloop, h1, if_true, List.getElem?_eq_getElem hlen]
+
+-- non-vacuity: `item.x > 1` in an empty scope: the name `item`, cursor at 4; and with `item count`
+-- bound, `item count + 1` is the name `item count` (the witness of L4)
+def exItem : Lx :=
+  { input := [105, 116, 101, 109, 46, 120, 32, 62, 32, 49], pos := 0, start := none, unaryTests := false,
+    between := false, typeName := false, tillIn := false, keys := [] }
+def exItemCount : Lx :=
+  { input := [105, 116, 101, 109, 32, 99, 111, 117, 110, 116, 32, 43, 32, 49], pos := 0, start := none,
+    unaryTests := false, between := false, typeName := false, tillIn := false,
+    keys := [[105, 116, 101, 109, 32, 99, 111, 117, 110, 116]] }
+example : consumeName exItem = .ok (⟨.name, .name kwItem⟩, { exItem with pos := 4 }) ∧
+    consumeName exItemCount =
+      .ok (⟨.name, .name [105, 116, 101, 109, 32, 99, 111, 117, 110, 116]⟩, { exItemCount with pos := 10 }) := by
+  decide
+
+/-- `name_ends_at_comment`: a comment opener (`//` or `/*`) after a word — directly or after
+white space — ends the name: the collector returns the word as the only part (finding F32,
+repaired: before, `/`, `*` and the words of the comment were collected as parts). -/
+theorem name_ends_at_comment (inp pre w0 blanks r : List Nat) (d : Nat) (hd : d = 47 ∨ d = 42)
+    (hinp : inp = pre ++ (renderName [w0] [[]] ++ (blanks ++ 47 :: d :: r)))
+    (hw : isWordPart w0 = true) (hbl : isBlanks blanks = true) (hamb : NoAmbiguousBlank inp) :
+    ∃ st, collectParts inp pre.length = .ok st ∧ st.parts = [w0] ∧
+      st.positions = [pre.length + w0.length - 1] := by
+  have hne : w0 ≠ [] := by intro he; subst he; simp [isWordPart] at hw
+  obtain ⟨c0, w, rfl⟩ : ∃ c0 w, w0 = c0 :: w := by
+    cases w0 with
+    | nil => exact absurd rfl hne
+    | cons c w => exact ⟨c, w, rfl⟩
+  have hc0 : isNamePartChar c0 = true := by
+    simp only [isWordPart, List.all_cons, Bool.and_eq_true] at hw
+    exact hw.2.1
+  have hat : inp[pre.length]? = some c0 := by rw [hinp]; simp [renderName]
+  obtain ⟨st, hst⟩ := collectParts_ok hat
+  have hsplit := collectParts_eq_split hamb (fun ch hch => by rw [hat] at hch; cases hch; exact hc0) hst
+  have hdrop : inp.drop pre.length = renderName [c0 :: w] [[]] ++ (blanks ++ 47 :: d :: r) := by
+    rw [hinp]; simp
+  have hrest : notExtending (blanks ++ 47 :: d :: r) := by
+    intro ch hch
+    cases blanks with
+    | nil =>
+      simp only [List.nil_append, List.head?_cons, Option.some.injEq] at hch
+      subst hch; decide
+    | cons b bl =>
+      simp only [List.cons_append, List.head?_cons, Option.some.injEq] at hch
+      subst hch
+      simp only [isBlanks, List.all_cons, Bool.and_eq_true, Bool.not_eq_true'] at hbl
+      exact hbl.1.2
+  have hok : renderOk false [c0 :: w] [[]] = true := by simp [renderOk, isBlanks, hw]
+  have hnc : noCommentStart (renderName [c0 :: w] [[]] ++ (blanks ++ 47 :: d :: r).take 1) = true := by
+    have hall : (c0 :: w).all isNamePartChar = true := by
+      simp only [isWordPart, Bool.and_eq_true] at hw; exact hw.2
+    simp only [renderName, List.nil_append, List.append_nil]
+    exact noCommentStart_word _ _ hall (by cases blanks <;> simp)
+  have hsr := split_render [c0 :: w] [[]] false 0 _ hok hrest hnc
+  have htail : splitGo (0 + (renderName [c0 :: w] [[]]).length) [] (blanks ++ 47 :: d :: r) = [] := by
+    rw [splitGo_blanks blanks _ _ hbl]
+    have hch : commentHead 47 (d :: r) = true := by
+      rcases hd with rfl | rfl <;> simp [commentHead]
+    simp [splitGo, hch, isNamePartChar, isNameStartChar, isDigit, isWhitespace, isVerticalSpace]
+  rw [hdrop] at hsplit
+  unfold splitParts at hsplit
+  rw [hsr, htail] at hsplit
+  refine ⟨st, hst, ?_, ?_⟩
+  · rw [hsplit.1]; simp [ends]
+  · rw [hsplit.2]; simp [ends, renderName]
+
+-- non-vacuity at the witness of F32: `k /* c */ in b` in `till_in` mode is the name `k` (cursor
+-- at 2, where the comment opens); the keyword `in` then clears `till_in` (lexer.rs:299)
+def exF32 : Lx :=
+  { input := [107, 32, 47, 42, 32, 99, 32, 42, 47, 32, 105, 110, 32, 98], pos := 0, start := none,
+    unaryTests := false, between := false, typeName := false, tillIn := true, keys := [[98]] }
+example : nextToken exF32 = .ok (⟨.name, .name [107]⟩, { exF32 with pos := 2 }) ∧
+    nextToken { exF32 with pos := 2 } = .ok (tk .in_, { exF32 with pos := 12, tillIn := false }) := by
+  decide
 
 /-- `key_lookup_is_name_new`: the text the longest-prefix loop looks up (lexer.rs:672, repaired
 by b9aabe3, finding F19) IS the `Name::new` text of the candidate parts — the normalisation under
@@ -132,13 +229,15 @@ theorem collect_eq_split (inp : List Nat) (hamb : NoAmbiguousBlank inp) (pos : N
   collectParts_eq_split hamb hstart h
 
 /-- `collect_roundtrip`: for every part list, every legal spacing (white space before each
-part, none required around a symbol, at least one blank between two words) and every
+part, none required around a symbol, at least one blank between two words; no `/` directly
+followed by `/` or `*`: that opens a comment, which ends the name — finding F32, repaired) and every
 continuation `rest` that does not extend the last word, the collector applied to
 `pre ++ renderName parts spacing ++ rest` at `|pre|` returns `parts` as its first parts, and the
 position recorded for the last of them is the last character of the rendered name. -/
 theorem collect_roundtrip (pre rest p0 : List Nat) (ps sps : List (List Nat))
     (hok : renderOk false (p0 :: ps) ([] :: sps) = true) (hw : isWordPart p0 = true)
     (hrest : notExtending rest)
+    (hnc : noCommentStart (renderName (p0 :: ps) ([] :: sps) ++ rest.take 1) = true)
     (hamb : NoAmbiguousBlank (pre ++ (renderName (p0 :: ps) ([] :: sps) ++ rest))) :
     ∃ st, collectParts (pre ++ (renderName (p0 :: ps) ([] :: sps) ++ rest)) pre.length = .ok st ∧
       st.parts.take (ps.length + 1) = p0 :: ps ∧
@@ -160,7 +259,7 @@ theorem collect_roundtrip (pre rest p0 : List Nat) (ps sps : List (List Nat))
   have hdrop : (pre ++ (renderName ((c0 :: w0) :: ps) ([] :: sps) ++ rest)).drop pre.length =
       renderName ((c0 :: w0) :: ps) ([] :: sps) ++ rest := by simp
   rw [hdrop] at hsplit
-  have hsr := split_render ((c0 :: w0) :: ps) ([] :: sps) false 0 rest hok hrest
+  have hsr := split_render ((c0 :: w0) :: ps) ([] :: sps) false 0 rest hok hrest hnc
   unfold splitParts at hsplit
   rw [hsr] at hsplit
   refine ⟨st, hst, ?_, ?_⟩
@@ -179,35 +278,31 @@ symbols in any arrangement that starts with a word — that is bound in the scop
 `Name::new` text, written with any legal spacing and followed by text that
 does not extend its last word, is returned by `consume_name` as ONE name token carrying that
 text, with the cursor just after the name — unless a longer prefix of the collected parts is
-bound as well (then that one wins: `longest_match`), the name starts with the word `item`, or the
-lexer is in `till_in` mode. -/
+bound as well (then that one wins: `longest_match`) or the lexer is in `till_in` mode.  A name
+whose first word is `item` is no exception (finding L4, repaired); the rendering must not contain
+a comment opener (`//`, `/*`: a comment ends the name, finding F32, repaired). -/
 theorem bound_name_resolves (l : Lx) (pre rest p0 : List Nat) (ps sps : List (List Nat))
     (hinp : l.input = pre ++ (renderName (p0 :: ps) ([] :: sps) ++ rest)) (hpos : l.pos = pre.length)
     (hok : renderOk false (p0 :: ps) ([] :: sps) = true) (hw : isWordPart p0 = true)
-    (hrest : notExtending rest) (hamb : NoAmbiguousBlank l.input)
-    (hitem : p0 ≠ kwItem) (htill : l.tillIn = false)
+    (hrest : notExtending rest)
+    (hnc : noCommentStart (renderName (p0 :: ps) ([] :: sps) ++ rest.take 1) = true)
+    (hamb : NoAmbiguousBlank l.input)
+    (htill : l.tillIn = false)
     (hbound : l.keys.contains (nameNew (p0 :: ps)) = true)
     (hlonger : ∀ st, collectParts l.input l.pos = .ok st →
       ∀ j, ps.length + 1 < j → j ≤ st.parts.length → isKeyAt l.keys st.parts j = false) :
     consumeName l = .ok (⟨.name, .name (nameNew (p0 :: ps))⟩,
       { l with pos := pre.length + (renderName (p0 :: ps) ([] :: sps)).length }) := by
   rw [hinp] at hamb
-  obtain ⟨st, hst, htake, hlast⟩ := collect_roundtrip pre rest p0 ps sps hok hw hrest hamb
+  obtain ⟨st, hst, htake, hlast⟩ := collect_roundtrip pre rest p0 ps sps hok hw hrest hnc hamb
   rw [← hinp, ← hpos] at hst
   have hlenle : ps.length + 1 ≤ st.parts.length := by
     have := congrArg List.length htake
     simp only [List.length_take, List.length_cons] at this
     omega
-  have hhead : st.parts.head? ≠ some kwItem := by
-    have : st.parts.head? = some p0 := by
-      have h0 : (st.parts.take (ps.length + 1)).head? = some p0 := by rw [htake]; rfl
-      rw [List.head?_take] at h0
-      simpa using h0
-    rw [this]
-    intro h; cases h; exact hitem rfl
   have hkey : isKeyAt l.keys st.parts (ps.length + 1) = true := by
     rw [key_lookup_is_name_new, htake]; exact hbound
-  obtain ⟨p, hp, hres⟩ := longest_match l st hst hhead (Or.inl htill) (ps.length + 1) (by omega) hlenle hkey
+  obtain ⟨p, hp, hres⟩ := longest_match l st hst (Or.inl htill) (ps.length + 1) (by omega) hlenle hkey
     (hlonger st hst)
   simp only [Nat.add_sub_cancel] at hp
   rw [hlast] at hp
@@ -239,7 +334,7 @@ theorem operator_when_unbound (l : Lx) (pre w0 blanks r : List Nat) (sym : Nat) 
     (hinp : l.input = pre ++ (renderName [w0] [[]] ++ (blanks ++ sym :: r))) (hpos : l.pos = pre.length)
     (hw : isWordPart w0 = true)
     (hbl : isBlanks blanks = true) (hop : opToken sym = some tt) (halone : standsAlone sym r.head?)
-    (hamb : NoAmbiguousBlank l.input) (hitem : w0 ≠ kwItem) (htill : l.tillIn = false)
+    (hamb : NoAmbiguousBlank l.input) (htill : l.tillIn = false)
     (hbound : l.keys.contains (nameNew [w0]) = true)
     (hlonger : ∀ st, collectParts l.input l.pos = .ok st →
       ∀ j, 1 < j → j ≤ st.parts.length → isKeyAt l.keys st.parts j = false) :
@@ -262,8 +357,13 @@ theorem operator_when_unbound (l : Lx) (pre w0 blanks r : List Nat) (sym : Nat) 
       exact hbl.1.2
   have hok : renderOk false [w0] [[]] = true := by
     simp [renderOk, isBlanks, hw]
-  have hres := bound_name_resolves l pre (blanks ++ sym :: r) w0 [] [] hinp hpos hok hw hrest hamb
-    hitem htill hbound (by simpa using hlonger)
+  have hnc : noCommentStart (renderName [w0] [[]] ++ (blanks ++ sym :: r).take 1) = true := by
+    have hall : w0.all isNamePartChar = true := by
+      simp only [isWordPart, Bool.and_eq_true] at hw; exact hw.2
+    simp only [renderName, List.nil_append, List.append_nil]
+    exact noCommentStart_word w0 _ hall (by cases blanks <;> simp)
+  have hres := bound_name_resolves l pre (blanks ++ sym :: r) w0 [] [] hinp hpos hok hw hrest hnc hamb
+    htill hbound (by simpa using hlonger)
   have hlen : (renderName [w0] [[]]).length = w0.length := by simp [renderName]
   rw [hlen] at hres
   refine ⟨_, hres, rfl, ?_⟩
